@@ -22,15 +22,22 @@ def comb_case(rnd, dt=None, fixed=None):
     X = rand_traces(rnd, dt, n, W)
     op = rnd.choice(['Product', 'Difference', 'AbsoluteDifference', 'CenteredProduct']); mode = rnd.choice(['one', 'distance', 'two', 'same'])
     L1 = rnd.randint(1, 5); st = rnd.randint(0, W - L1)
-    f1 = rnd.choice([slice(st, st + L1), [rnd.randrange(W) for _ in range(L1)]]); c1 = list(range(W))[f1] if isinstance(f1, slice) else f1
-    kw = dict(frame_1=f1); c2 = c1; d = None
+    f1 = rnd.choice([slice(st, st + L1), [rnd.randrange(W) for _ in range(L1)], Ellipsis]); c1 = list(range(W)) if f1 is Ellipsis else (list(range(W))[f1] if isinstance(f1, slice) else f1)
+    if f1 is Ellipsis and mode == 'one': W = 5; X = X[:, :5].copy(); c1 = list(range(W))      # keep the number of pairs small
+    if f1 is Ellipsis and mode == 'same': mode = 'two'
+    kw = dict(frame_1=f1) if f1 is not Ellipsis else {}; c2 = c1; d = None; L1 = len(c1)
     if mode == 'distance': d = rnd.choice([1, 2, L1, L1 + 1, L1 + 3]); kw['distance'] = d
     if mode in ('two', 'same'):
         L2 = L1 if mode == 'same' else rnd.randint(1, 4); c2 = [rnd.randrange(W) for _ in range(L2)]; kw['frame_2'] = c2
+        if mode == 'two' and f1 is not Ellipsis and rnd.random() < 0.3: c2 = list(c1); kw['frame_2'] = f1 if rnd.random() < 0.5 else list(c1)      # frame_2 given explicitly, equal to frame_1: still frame x frame
         if mode == 'same': kw['mode'] = 'same'
     mean = None
     if op == 'CenteredProduct': mean = np.array([rnd.uniform(-3, 3) for _ in range(W)]); kw['mean'] = mean
-    X0 = X.copy(); out = getattr(ho, op)(**kw)(X)
+    X0 = X.copy(); obj = getattr(ho, op)(**kw)
+    if (rnd.random() < 0.3 and not isinstance(f1, slice)) or (f1 is Ellipsis and op != 'CenteredProduct'):      # history: the same object first sees a matrix of another width
+        try: obj(rand_traces(rnd, dt, 2, W + rnd.choice([-1, 3])))
+        except Exception: pass
+    out = obj(X)
     if not np.array_equal(X, X0): return 'input modified'
     if out.dtype.kind != 'f' or out.dtype.itemsize < 4: return '%s %s: result dtype %s is not a float of at least 32 bits (%s input)' % (op, mode, out.dtype, dt)
     pr = pairs(mode, c1, c2, d)
